@@ -24,7 +24,7 @@ import types
 import numpy as np
 
 from . import ring
-from .ring import Poly, Unsupported
+from .ring import Poly, Unsupported, ShapeChanged
 from .sym import SBool, Infeasible, PathLimit, have_ctx, current
 
 sys.setrecursionlimit(100000)
@@ -152,7 +152,7 @@ def _check_loop_carried(itv, before, env, targets):
     after = _frame_state(env)
     bad = [k for k, f in before.items() if k in after and after[k] != f and k not in managed and k not in targets]
     if bad:
-        raise Unsupported(f"loop-carried state not covered by the loop invariant of the contract: {sorted(bad)} (changed by the generic iteration of a cut loop)")
+        raise ShapeChanged(f"loop-carried state not covered by the loop invariant of the contract: {sorted(bad)} (changed by the generic iteration of a cut loop)")
 
 
 class _Poison:
@@ -162,7 +162,7 @@ class _Poison:
         object.__setattr__(self, "_n", name)
 
     def _boom(self, *a, **k):
-        raise Unsupported(f"local variable '{self._n}' was declared a write-before-read temporary of a cut loop but is read before being written")
+        raise ShapeChanged(f"local variable '{self._n}' was declared a write-before-read temporary of a cut loop but is read before being written")
 
     __getattr__ = __call__ = __iter__ = __len__ = __bool__ = __add__ = __radd__ = __mul__ = __rmul__ = __getitem__ = __eq__ = __hash__ = _boom
 
@@ -179,6 +179,14 @@ def _poison_temps(itv, env):
                 break
             e = e.parent
     return temps
+
+
+def _hook(fn, *a):
+    """run a contract's loop-invariant hook: a local variable the protocol expects and the code no longer has is a changed code shape, not a checker crash"""
+    try:
+        return fn(*a)
+    except (NameError, KeyError) as e:
+        raise ShapeChanged(f"the loop invariant of the contract refers to a local variable the code no longer has: {e}")
 
 
 def _target_names(t):
@@ -1059,11 +1067,11 @@ class Interp:
             #   init(env): the invariant holds on entry;  havoc(env): arbitrary state satisfying the invariant;
             #   one generic iteration of the real body;  step(env): the invariant is re-established;
             #   exit(env): arbitrary invariant state for the code after the loop
-            itv.init(self, env)
+            _hook(itv.init, self, env)
             if isinstance(itv, GSeq) and not itv.nonempty():
                 self.exec_block(s.orelse, env)      # empty sequence: the loop body does not run, the entry state is the exit state
                 return
-            itv.havoc(self, env)
+            _hook(itv.havoc, self, env)
             temps = _poison_temps(itv, env)
             frame = _frame_state(env)
             self.assign(s.target, itv.element(), env)
@@ -1075,8 +1083,8 @@ class Interp:
             except _Continue:
                 pass
             _check_loop_carried(itv, frame, env, _target_names(s.target) | temps)
-            itv.step(self, env, broke)
-            itv.exit(self, env)
+            _hook(itv.step, self, env, broke)
+            _hook(itv.exit, self, env)
             if not broke:
                 self.exec_block(s.orelse, env)
             return
@@ -1426,18 +1434,18 @@ class Interp:
         if len(gens) != 1 or kind not in ("list", "gen"):
             raise Unsupported("comprehension over a ghost sequence with several generators / of set or dict type")
         en = Env(env, env.globals)
-        itv.init(self, en)
+        _hook(itv.init, self, en)
         if not itv.nonempty():
             return GSeq("comp", src=itv, kept=False, image=None, n="empty"), itv
-        itv.havoc(self, en)
+        _hook(itv.havoc, self, en)
         temps = _poison_temps(itv, en)
         frame = _frame_state(en)
         self.assign(gens[0].target, itv.element(), en)
         kept = all(truth(self.eval(c, en)) for c in gens[0].ifs)
         image = self.eval(e.elt, en) if kept else None
         _check_loop_carried(itv, frame, en, _target_names(gens[0].target) | temps)
-        itv.step(self, en, False)
-        itv.exit(self, en)
+        _hook(itv.step, self, en, False)
+        _hook(itv.exit, self, en)
         return GSeq("comp", src=itv, kept=kept, image=image), itv
 
     def _comp(self, gens, env, emit, first=None):
